@@ -182,7 +182,7 @@ func runRenew(ctx *action.Context, tx action.RawTx) (bool, action.Response) {
 
 	// calculate the blocks
 
-	extend, err := calculateRenewal(&renewDomain.BuyingPrice.Value, &opt.PerBlockFees)
+	extend, err := calculateRenewal(&renewDomain.BuyingPrice.Value, &opt.PerBlockFees, domain.ExpireHeight)
 	if err != nil {
 		return false, action.Response{
 			Log: err.Error(),
